@@ -5,6 +5,7 @@
 package main
 
 import (
+	"bytes"
 	"flag"
 	"fmt"
 	"strings"
@@ -16,11 +17,16 @@ import (
 	"verif/engine/voracle"
 )
 
-func judge(r *vlogrun.Rec, file string, line int, chunks [][]byte) string {
-	if len(chunks) != 1 {
-		return fmt.Sprintf("%d Write calls for one record", len(chunks))
+func cutLast(s string, sep byte) (before, after string, found bool) {
+	if i := strings.LastIndexByte(s, sep); i >= 0 {
+		return s[:i], s[i+1:], true
 	}
-	out := chunks[0]
+	return s, "", false
+}
+
+func judge(r *vlogrun.Rec, file string, line int, chunks [][]byte) string {
+	// how many Write calls carry the line is C02's subject: the record is what they carry together
+	out := bytes.Join(chunks, nil)
 	if len(out) == 0 || out[len(out)-1] != '\n' {
 		return fmt.Sprintf("line does not end in a newline: %q", vlogrun.Clip(out))
 	}
@@ -47,7 +53,8 @@ func judge(r *vlogrun.Rec, file string, line int, chunks [][]byte) string {
 	if toks[0].Key != "time" {
 		return fmt.Sprintf("first token is %q", toks[0].Key)
 	}
-	if t, err := time.Parse(time.RFC3339, toks[0].Val); err != nil || !t.Equal(vlogrun.Fake.Truncate(time.Second)) {
+	// at whatever precision the handler prints it
+	if t, err := time.Parse(time.RFC3339Nano, toks[0].Val); err != nil || t.After(vlogrun.Fake) || vlogrun.Fake.Sub(t) >= time.Second {
 		return fmt.Sprintf("time %q is not the record's time", toks[0].Val)
 	}
 	if toks[1].Key != "level" || toks[1].Val != vlogrun.LevelNames[r.Level] {
@@ -56,8 +63,9 @@ func judge(r *vlogrun.Rec, file string, line int, chunks [][]byte) string {
 	i := 2
 	if r.Source {
 		want := fmt.Sprintf("%s:%d", vlogrun.LastTwo(file), line)
-		if toks[2].Key != "source" || toks[2].Val != want {
-			return fmt.Sprintf("source token is %s=%s, want %s", toks[2].Key, toks[2].Val, want)
+		gotFile, gotLine, _ := cutLast(toks[2].Val, ':')
+		if toks[2].Key != "source" || gotLine != fmt.Sprint(line) || !vlogrun.IsFileOf(gotFile, file) {
+			return fmt.Sprintf("source token is %s=%s, the call site is %s", toks[2].Key, toks[2].Val, want)
 		}
 		i = 3
 	}
@@ -69,7 +77,7 @@ func judge(r *vlogrun.Rec, file string, line int, chunks [][]byte) string {
 		if t.Key != keys[k] {
 			return fmt.Sprintf("attribute %d has key %q, want the dotted path %q: %q", k, t.Key, keys[k], vlogrun.Clip(out))
 		}
-		if want, exact := leaves[k].Text(); exact && t.Val != want {
+		if want, ok := leaves[k].TextMatches(t.Val); !ok {
 			return fmt.Sprintf("attribute %q (%s) has value %q, want %q: %q", keys[k], leaves[k].Name, t.Val, want, vlogrun.Clip(out))
 		}
 	}
